@@ -549,8 +549,6 @@ def mon_shutdown(case):
                 announced[m.group(1)] = int(m.group(2))
                 if reset_limit is not None and int(m.group(2)) > reset_limit + 250:
                     out.append(f"step {i+1}: the SHUTDOWN event of {m.group(1)} announces a deadline {int(m.group(2)) - reset_limit} ms after the deadline of the reset it belongs to")
-        if any(e.startswith("reset done") for e in es):
-            reset_limit = None
             m = re.match(r"sup exec:extension-(.*)-\d+ @", x)
             if m:
                 announced.pop(m.group(1), None)
@@ -559,6 +557,8 @@ def mon_shutdown(case):
                 late = int(m.group(2)) - announced.pop(m.group(1))
                 if late > 450:
                     out.append(f"step {i+1}: extension {m.group(1)} was still alive at the deadline announced in its SHUTDOWN event and was killed only {late} ms after it")
+        if any(e.startswith("reset done") for e in es):
+            reset_limit = None
         if ws[0] in ("ext", "int") and len(ws) > 3 and ws[2] == "register":
             if any(e.startswith(ws[1] + ".register=200") for e in es):
                 regs[ws[1]] = (ws[0], ws[3])
